@@ -132,12 +132,177 @@ def mp_weights(tree, x, T):
     return ws, zs
 
 
+# numeric representations in which a caller can hand over one and the same positive temperature (the statement speaks of "a positive split temperature T":
+# the number counts, not the type it is written in); the float ones double as controls for the integer ones
+TEMP_REPS = [('int', int, True), ('numpy.int64', np.int64, True), ('numpy.int32', np.int32, True), ('numpy.uint8', np.uint8, True),
+             ('float', float, False), ('numpy.float64', np.float64, False), ('numpy.float32', np.float32, False)]
+
+
+def temp_exact(T):
+    """exact rational value of a temperature given in any of the numeric representations"""
+    return Fraction(int(T)) if isinstance(T, (int, np.integer)) and not isinstance(T, bool) else Fraction(float(T))
+
+
+def ref_mixtures(ws, keep, cap, band=4e-6):
+    """the statement's truncation of the (oracle) weights `ws`: the smallest top-weighted set whose mass reaches `keep`, at most `cap` leaves, renormalised.
+    Returns the list of acceptable weight vectors (more than one when a cumulative mass lies within `band` of `keep`: accepted either way) or None when the
+    cut falls between two (nearly) equal weights (which leaf is kept is then a tie)."""
+    w = np.array([float(x) for x in ws], dtype=np.float64)
+    nl = len(w)
+    order = np.argsort(-w, kind='stable')
+    cum = np.cumsum(w[order])
+    mx = max(min(cap, nl) - 1, 0)
+    k_lo = min(int(np.sum(cum < keep - band)), mx) + 1
+    k_hi = min(int(np.sum(cum < keep + band)), mx) + 1
+    res = []
+    for m in range(k_lo, k_hi + 1):
+        if m < nl and abs(w[order[m - 1]] - w[order[m]]) < band:
+            return None
+        out = np.zeros(nl)
+        out[order[:m]] = w[order[:m]] / w[order[:m]].sum()
+        res.append(out)
+    return res
+
+
+def set_nonround_scales(tree, rng):
+    """gate scales as fitted trees have them (an inter-quartile range: not a whole number, not dyadic, below and above one), so that T * scale is neither
+    integral nor exactly representable for any integral T; the pattern does not depend on the seed, only the jitter does"""
+    base = [0.37, 3.7, 0.85, 1.6, 2.45, 0.12, 5.2]
+    for j, nd in enumerate(node_table(tree)):
+        nd['adaptive_temp_scaling'] = float(base[j % len(base)] * (1.0 + 0.1 * rng.random()))
+
+
+def temperature_representations(ck, xr, fitted_pool):
+    """the documented mixture for ONE positive temperature, whatever numeric type it is written in (Python int, numpy integer / floating scalars, float), set through
+    the constructor or by assignment, on synthetic trees with non-round node scales (one-hot probes: the output IS the weight vector) and on fitted trees (real leaf
+    models, scales = inter-quartile ranges); oracle: mpmath weights at the exact rational value of T, truncation of the statement with ties accepted either way"""
+    trng = np.random.default_rng(ck.seed + 919)
+    d = 2
+    pool = []
+    for sh in [('L', 'L'), (('L', 'L'), 'L'), ((('L', 'L'), ('L', 'L')), (('L', 'L'), ('L', 'L'))), ('L', (('L', ('L', 'L')), ('L', 'L')))][: ck.n(4, 4)]:
+        t = build_tree(sh, trng, d)
+        set_nonround_scales(t, trng)
+        leaves = orc.tree_leaves(t)
+        for k, lf in enumerate(leaves):
+            lf['model'] = Probe(k, len(leaves), 'onehot')
+        pool.append(('synthetic ' + str(sh).replace("'", ''), t))
+    for t in fitted_pool[: ck.n(2, 4)]:
+        if t['type'] != 'leaf':
+            t.pop('_cache', None)
+            pool.append(('fitted', t))
+    int_vals = [1, 2, 3, 7]; frac_vals = [0.3, 2.5, 0.05]
+    for ti, (label, tree) in enumerate(pool):
+        leaves = orc.tree_leaves(tree); nl = len(leaves)
+        nrows = 4
+        Xb = np.round(trng.standard_normal((nrows, d)) * 8).astype(np.float32) / 8
+        Xt = torch.tensor(Xb)
+        with xr.quiet():
+            outs = [np.asarray(torch.as_tensor(lf['model'].predict(Xt)).detach(), dtype=np.float64).reshape(nrows, -1) for lf in leaves]
+        for lf in leaves:
+            if isinstance(lf['model'], Probe):
+                lf['model'].seen = []
+        scales = [float(nd.get('adaptive_temp_scaling', 1.0)) for nd in node_table(tree)]
+        oracle = {}
+        shared = xr.xRFM(verbose=False, split_temperature=0.9, keep_weight_frac_in_predict=1.0, max_leaf_count_in_ensemble=nl + 1)
+        shared.trees = [tree]; shared.n_classes_ = 0
+        with xr.quiet():
+            shared.predict(Xt)          # the tree cache exists and another temperature has been in use when T is assigned below
+        for ri, (rname, rtype, integral) in enumerate(TEMP_REPS):
+            vals = [int_vals[(ti + ri) % 4], int_vals[(ti + ri + 1 + ri % 2) % 4] if integral else frac_vals[(ti + ri) % 3]]
+            for vi, val in enumerate(vals):
+                T = rtype(val)
+                Tq = temp_exact(T)
+                how = ['constructor', 'assignment'][(ti + ri + vi) % 2]
+                if Tq not in oracle:
+                    oracle[Tq] = [mp_weights(tree, Xb[r], Tq)[0] for r in range(nrows)]
+                for (keep, cap) in [(1.0, nl + 1), ([0.9, 0.6, 0.99][(ti + vi) % 3], [max(1, nl - 1), 2, 12][(ti + ri) % 3])][: 1 + (ri + vi + 1) % 2]:
+                    desc = dict(kind='temperature-representation', tree=label, type=rname, T=repr(T), value=float(Tq), how=how, keep=keep, cap=cap,
+                                node_scales=scales, rows=Xb.tolist())
+                    ck.case(desc, nontrivial=True, sample=(ti == 2 and ri == 0 and vi == 0 and keep == 1.0))
+                    ck.count(f'temperature given as {rname}'); ck.count(f'temperature set by {how}')
+                    ck.count('T*scale below one at some node' if any(Tq * Fraction(s) < 1 for s in scales) else 'T*scale at least one at every node')
+                    key = json.dumps(dict(site='temperature-representation', type=rname))
+                    try:
+                        with xr.quiet():
+                            if how == 'constructor':
+                                m = xr.xRFM(verbose=False, split_temperature=T, keep_weight_frac_in_predict=keep, max_leaf_count_in_ensemble=cap)
+                                m.trees = [tree]; m.n_classes_ = 0
+                            else:
+                                m = shared
+                                m.split_temperature = T; m.keep_weight_frac_in_predict = keep; m.max_leaf_count_in_ensemble = cap
+                            got = np.asarray(m.predict(Xt), dtype=np.float64).reshape(nrows, -1)
+                    except Exception as e:
+                        ck.violation(f'soft routing with the positive temperature {T!r} (type {rname}, set by {how}) raised {e!r} on a {label} tree with node scales '
+                                     f'{[round(s, 4) for s in scales]} (row {Xb[0].tolist()}, keep={keep}, cap={cap}); the same value as a float is {float(Tq)}',
+                                     dict(desc, error=repr(e)), key=key)
+                        continue
+                    for r in range(nrows):
+                        cands = ref_mixtures(oracle[Tq][r], keep, cap)
+                        if cands is None:
+                            ck.skip('temperature-representation rows with a tied cut-off'); continue
+                        wants = [sum(c[k] * outs[k][r] for k in range(nl)) for c in cands]
+                        scale_out = 1.0 + max(float(np.max(np.abs(o[r]))) for o in outs)
+                        tol = (1e-5 + 4e-5 * np.abs(wants[0])) if isinstance(leaves[0]['model'], Probe) else 1e-4 * scale_out
+                        dev = [float(np.max(np.abs(got[r] - w_) - tol)) if np.all(np.isfinite(got[r])) else float('inf') for w_ in wants]
+                        if min(dev) > 0:
+                            best = wants[int(np.argmin(dev))]
+                            ck.violation(f'split_temperature={T!r} (type {rname}, set by {how}): soft prediction {got[r].round(6).tolist()} of row {Xb[r].tolist()} on a {label} tree '
+                                         f'(node scales {[round(s, 4) for s in scales]}, keep={keep}, cap={cap}) is not the documented mixture {np.asarray(best).round(6).tolist()} '
+                                         f'for T={float(Tq)} (gate logits (v.x - b)/(T*scale))',
+                                         dict(desc, row=Xb[r].tolist(), got=got[r].tolist(), want=np.asarray(best).tolist()), key=key)
+                            break
+        tree.pop('_cache', None)
+    # a model CONFIGURED with an integer-typed temperature and fitted (no tuning): its own predict on the fitted tree, default keep fraction and leaf cap
+    frng = np.random.default_rng(ck.seed + 929)
+    for i in range(ck.n(2, 4)):
+        n = int(frng.integers(100, 180))
+        X = xr.make_X('random', n, d, frng); y = xr.make_y('reg', X, frng)
+        Xv = xr.make_X('random', 30, d, frng); yv = xr.make_y('reg', Xv, frng)
+        rname, rtype, _ = TEMP_REPS[i % 4]
+        T = rtype([1, 2, 3, 1][i % 4])
+        xr.seed_all(930 + i)
+        try:
+            with xr.quiet():
+                fm = xr.xRFM(rfm_params=xr.default_rfm_params(iters=0, reg=1e-2), max_leaf_size=int(frng.integers(20, 40)), verbose=False,
+                             use_temperature_tuning=False, split_temperature=T)
+                fm.fit(torch.tensor(X), torch.tensor(y), torch.tensor(Xv), torch.tensor(yv))
+                tree = fm.trees[0]
+                Xq = np.round(frng.standard_normal((5, d)) * 8).astype(np.float32) / 8
+                Tfit = fm.split_temperature
+                got = np.asarray(fm.predict(torch.tensor(Xq)), dtype=np.float64).reshape(len(Xq), -1)
+        except Exception as e:
+            ck.violation(f'a model configured with split_temperature={T!r} (type {rname}, tuning off) raised {e!r} in fit/predict (n={n})',
+                         dict(kind='fitted-with-typed-temperature', type=rname, T=repr(T), n=n, error=repr(e)), key=json.dumps(dict(site='fitted-typed-temperature', type=rname)))
+            continue
+        ck.case(dict(kind='fitted-with-typed-temperature', type=rname, T=repr(T), n=n), nontrivial=tree['type'] != 'leaf'); ck.count(f'fitted with a temperature given as {rname}')
+        if tree['type'] == 'leaf' or not Tfit:
+            continue
+        leaves = orc.tree_leaves(tree); nl = len(leaves)
+        with xr.quiet():
+            outs = [np.asarray(lf['model'].predict(torch.tensor(Xq)), dtype=np.float64).reshape(len(Xq), -1) for lf in leaves]
+        scales = [float(nd.get('adaptive_temp_scaling', 1.0)) for nd in node_table(tree)]
+        for r in range(len(Xq)):
+            cands = ref_mixtures(mp_weights(tree, Xq[r], temp_exact(Tfit))[0], fm.keep_weight_frac_in_predict, fm.max_leaf_count_in_ensemble)
+            if cands is None:
+                ck.skip('temperature-representation rows with a tied cut-off'); continue
+            wants = [sum(c[k] * outs[k][r] for k in range(nl)) for c in cands]
+            tol = 1e-4 * (1.0 + max(float(np.max(np.abs(o[r]))) for o in outs))
+            if not np.all(np.isfinite(got[r])) or min(float(np.max(np.abs(got[r] - w_))) for w_ in wants) > tol:
+                ck.violation(f'model fitted with split_temperature={T!r} (type {rname}; after fit {Tfit!r}): prediction {got[r].round(6).tolist()} of row {Xq[r].tolist()} is not the documented '
+                             f'mixture {np.asarray(wants[0]).round(6).tolist()} of its {nl} leaves (node scales {[round(s, 4) for s in scales]}, keep={fm.keep_weight_frac_in_predict}, '
+                             f'cap={fm.max_leaf_count_in_ensemble})', dict(kind='fitted-with-typed-temperature', type=rname, T=repr(T), n=n, seed_all=930 + i, row=Xq[r].tolist(),
+                                                                         got=got[r].tolist(), want=np.asarray(wants[0]).tolist(), node_scales=scales),
+                             key=json.dumps(dict(site='fitted-typed-temperature', type=rname)))
+                break
+
+
 def run(ck):
     from harness import xr
     ck.rule = ('synthetic trees of every shape up to depth 3/4 (balanced and ragged, node scales != 1) and fitted trees; '
                '(a) real _build_tree_cache vs Coq build_cache/paths (exact); (b) one-hot probe leaves expose the weight matrix through the public '
                'predict: untruncated weights vs the real-valued model by `interval` lemmas; (c) truncated outputs vs the rational relation trunc_okb; '
                '(d) which leaf is invoked on which rows; (e) vector / scalar outputs, predict and predict_proba, aggregate in Q; (f) T -> 0 bound. '
+               '(g) one positive temperature written as Python int / numpy integer / numpy floating / float, set by constructor or assignment, on trees with non-round node scales and on fitted trees: mpmath mixture at the exact value of T. '
                'non-trivial = tree with >= 2 splits; distinct by hash of tree + rows + (T, keep, cap)')
     ck.trusted += ['Coq 8.16.1 kernel + vm_compute', 'Interval 4.6.1 (`interval` tactic)', 'probe leaves (harness)', 'mpmath oracle of the documented weights']
     ck.assumptions += ['float32 weights are compared with the real-valued model within 5e-6 + 2e-5*w',
@@ -186,6 +351,7 @@ def run(ck):
                   f'first mismatching shape indices {bad[:5]}')
 
     # fitted trees join the pool
+    fitted_pool = []
     for i in range(ck.n(2, 8)):
         n = int(rng.integers(80, 200))
         X = xr.make_X('random', n, d, rng); y = xr.make_y('reg', X, rng)
@@ -197,6 +363,7 @@ def run(ck):
             fm.fit(torch.tensor(X), torch.tensor(y), torch.tensor(Xv), torch.tensor(yv))
         t = fm.trees[0]; t.pop('_cache', None)
         trees.append(t)
+        fitted_pool.append(t)
         ck.count('fitted trees in the pool')
 
     # ensembles: the configured number of leaves caps EACH tree's mixture (the statement is per tree) — an ensemble of two trees predicts the mean of what each tree predicts alone
@@ -290,6 +457,9 @@ def run(ck):
                              f'(leaf outputs span [{lo}, {hi}]; T={Tq})', dict(row=Qd[r].tolist(), got=got[r].tolist(), want=np.asarray(want).tolist(), T=Tq),
                              key=json.dumps(dict(site='discrete-soft')))
                 break
+
+    # the same positive temperature in every numeric representation (own random stream: the regimes below see the numbers they saw before)
+    temperature_representations(ck, xr, fitted_pool)
 
     # ---------------- (b)-(f) weights, truncation, aggregation ----------------
     pick = list(range(len(trees)))
